@@ -427,6 +427,60 @@ Section Conv.
     end.
   End WithUReg.
 
+  (* =====================================================================================
+     The property's own statements (C16) over this model
+     ===================================================================================== *)
+
+  (* supported annotations: leaf types the converter has hooks for; Optional is flat (Python
+     flattens Optional[Optional[X]]); the dict[str, Any] fallback of the Union hook is kept out
+     (Optional[Dict[str, Any]] returns the raw document, covered by the correspondence only) *)
+  Fixpoint ty_ok (T : ty) : bool :=
+    match T with
+    | TUuid | TTime | TFwd _ => false
+    | TList X | TDict X => ty_ok X
+    | TOpt X => ty_ok X && match X with TOpt _ | TDict TAny | TAny => false | _ => true end
+    | _ => true
+    end.
+
+  Definition wire (k : cls) (f : field) : str := load_key k true (f_name f).
+
+  (* "bijective key maps": the wire keys derived from Meta.key_transform_with_load are pairwise
+     distinct, attribute names are distinct, and key_transform_with_dump sends every attribute back
+     to the key it is loaded from *)
+  Definition maps_bijective (k : cls) : Prop :=
+    NoDup (map f_name (c_fields k)) /\ NoDup (map (wire k) (c_fields k)) /\
+    forall f, In f (c_fields k) -> dump_key k true (f_name f) = wire k f.
+
+  Definition cls_ok (k : cls) : Prop :=
+    maps_bijective k /\
+    (forall f, In f (c_fields k) -> ty_ok (f_ty f) = true) /\
+    (forall f c, In f (c_fields k) -> In c (ty_classes (f_ty f)) -> lookup_cls c <> None).
+
+  Definition ct_ok : Prop := forall c k, lookup_cls c = Some k -> c_id k = c /\ cls_ok k.
+
+  (* instances that conform to an annotation (datetimes/dates are their own canonical ISO text) *)
+  Inductive inst_ok : ty -> value -> Prop :=
+  | I_str s : inst_ok TStr (VStr s)
+  | I_int z : inst_ok TInt (VInt z)
+  | I_float z : inst_ok TFloat (VFloat z)
+  | I_bool b : inst_ok TBool (VBool b)
+  | I_bytes b : inst_ok TBytes (VBytes b)
+  | I_dt s : dt_parse s = Some s -> replace_Z s = s -> inst_ok TDatetime (VDatetime s)
+  | I_date s : date_parse s = Some s -> inst_ok TDate (VDate s)
+  | I_any j : inst_ok TAny (inject j)
+  | I_list X l : Forall (inst_ok X) l -> inst_ok (TList X) (VList l)
+  | I_dict X kvs : NoDup (map fst kvs) -> Forall (fun kv => inst_ok X (snd kv)) kvs ->
+                   inst_ok (TDict X) (VDict kvs)
+  | I_none X : inst_ok (TOpt X) VNone
+  | I_some X v : v <> VNone -> inst_ok X v -> inst_ok (TOpt X) v
+  | I_data c k fs : lookup_cls c = Some k -> map fst fs = map f_name (c_fields k) ->
+                    Forall2 (fun f kv => inst_ok (f_ty f) (snd kv)) (c_fields k) fs ->
+                    inst_ok (TData c) (VData c fs).
+
+  (* every class of the table has its hooks registered (what the two entry points establish for the
+     classes reachable from their argument) *)
+  Definition all_hooked (reg : list N) : Prop := forall c k, lookup_cls c = Some k -> mem_N c reg = true.
+
   (* ---------- hook registration ---------- *)
   Definition cls_refs (c : N) : list N :=
     match lookup_cls c with
